@@ -690,9 +690,16 @@ class Repo:
             for n in walk_no_nested(fi.node):
                 if isinstance(n, ast.Assign) and len(n.targets) == 1 and isinstance(n.targets[0], ast.Name) \
                         and n.targets[0].id == expr.id and isinstance(strip_cast(n.value), ast.Call):
-                    t = self.resolve_class_expr(fi.module, strip_cast(n.value).func)
+                    fn = strip_cast(n.value).func
+                    t = self.resolve_class_expr(fi.module, fn)
                     if t:
                         return t
+                    if isinstance(fn, ast.Attribute):
+                        # Class.classmethod(...) constructing an instance of Class
+                        t = self.resolve_class_expr(fi.module, fn.value)
+                        m = t.lookup(fn.attr) if t else None
+                        if m is not None and any(d == "classmethod" for d in m.decorator_names()):
+                            return t
         return None
 
     # ---------------------------------------------------------------- who-calls
